@@ -44,6 +44,7 @@ package fastq
 //@   property C01
 //@   requires w != nil && w.w != nil && s != nil
 //@   ensures [bytes] n == emitted(w.w) - old(emitted(w.w)) && w.w == old(w.w)
+//@   ensures [length] err == nil ==> n == 2 + len(nameOf(s)) + (len(descOf(s)) != 0 ? 1 + len(descOf(s)) : 0)
 //@   assigns emitted(w.w), fresh
 
 //@ func (*Writer).Write
